@@ -13,6 +13,7 @@ Open Scope Z_scope.
 Section Run.
 Variable p : program.
 Variable rk : node -> nat.
+Variable sB : state.
 Hypothesis Hrk : forall n e d, alookup p n = Some e -> In d (expr_reads e) -> (rk d < rk n)%nat.
 Hypothesis Hproj : forall n e d, alookup p n = Some e -> nkind n = KProjection -> In d (expr_reads e) ->
   is_fw_or_proj (nkind d) = true.
@@ -80,7 +81,7 @@ Lemma MStaleV_not_Solid : forall s n, MStaleV s n -> ~ MSolid s n.
 Proof. intros s n H [HG _]. eapply Stale_not_MGood; [apply MStaleV_Stale; exact H| |exact HG]. constructor. Qed.
 
 Lemma MStaleV_mono : forall Ex X inp stk s s' n,
-  MInvE p rk Ex X inp s -> MonoR stk s s' -> MKeeps s s' -> get_info s' n = get_info s n ->
+  MInvE p rk sB Ex X inp s -> MonoR stk s s' -> MKeeps s s' -> get_info s' n = get_info s n ->
   MStaleV s n -> MStaleV s' n.
 Proof.
   intros Ex X inp stk s s' n HI HM HK En (cal & i & ci & v & t & A & B & C & D & S & E).
@@ -117,20 +118,20 @@ Definition MQPost (c : caller) (fr fr' : option frame) (o : qout) (i : info) (n 
 (** * statements *)
 Definition msound_query (f : nat) : Prop :=
   forall inp X Y stk c fr n s o fr' ms s',
-    MInv p rk (X ++ Y) inp s -> StkOk rk stk n -> (is_cq c = false -> stk = []) -> nkind n <> KExternal ->
+    MInv p rk sB (X ++ Y) inp s -> StkOk rk stk n -> (is_cq c = false -> stk = []) -> nkind n <> KExternal ->
     MNPq c n s -> MFrPre c fr n s -> XMode c X -> QPreS c n Y s ->
     mquery f stk c fr n s = Ok (o, fr', ms, s') ->
-    MInv p rk X inp s' /\ (is_cq c = true -> MKeeps s s') /\ ms = [] /\
+    MInv p rk sB X inp s' /\ (is_cq c = true -> MKeeps s s') /\ ms = [] /\
     exists i, get_info s' n = Some i /\ i_verified i = s_ts s' /\ MQPost c fr fr' o i n.
 
 (** what [execute] and [repair] leave: the node verified, possibly with a window of its own *)
 Definition XPost (X : list node) (inp : inputs) (c : caller) (n : node) (s' : state) : Prop :=
-  exists Y, MInv p rk (X ++ Y) inp s' /\ (c_follow c = false -> Y = []) /\
+  exists Y, MInv p rk sB (X ++ Y) inp s' /\ (c_follow c = false -> Y = []) /\
     (Y = [] \/ has_pending s' n = true) /\ (forall y, In y Y -> In y (proj_callers s' n)) /\ sverified s' n.
 
 Definition msound_execute (f : nat) : Prop :=
   forall inp X stk c n rc fr0 s ms s',
-    MInv p rk X inp s -> StkOk rk stk n -> (is_cq c = false -> stk = []) -> nkind n <> KExternal ->
+    MInv p rk sB X inp s -> StkOk rk stk n -> (is_cq c = false -> stk = []) -> nkind n <> KExternal ->
     FrEmpty fr0 -> ~ sverified s n ->
     (x_pedantic c = true \/ X = []) ->
     ((rc = true /\ MStaleV s n /\ (x_pedantic c = true \/ TfcOK s n)) \/ (rc = false /\ get_info s n = None)) ->
@@ -138,33 +139,33 @@ Definition msound_execute (f : nat) : Prop :=
     XPost X inp c n s' /\ MKeeps s s' /\ ms = [].
 Definition msound_eval (f : nat) : Prop :=
   forall inp X stk n pd prev e fr s o fr' ms s',
-    MInv p rk X inp s -> no_group e = true ->
+    MInv p rk sB X inp s -> no_group e = true ->
     (forall d, In d (expr_reads e) -> StkOk rk stk d /\ (rk d < rk n)%nat /\ nkind d <> KExternal) ->
     MFrOk rk s n fr -> (pd = true \/ MPrevOK s prev) -> (pd = true \/ X = []) ->
     meval f stk (CQuery n true pd prev) e fr s = Ok (o, fr', ms, s') ->
-    MInv p rk X inp s' /\ MKeeps s s' /\ ms = [] /\ MFrOk rk s' n fr' /\
+    MInv p rk sB X inp s' /\ MKeeps s s' /\ ms = [] /\ MFrOk rk s' n fr' /\
     (forall d x, frR fr d x -> frR fr' d x) /\
     exists z l, o = EVal z /\ evr (frR fr') e z l /\
       (forall d, In d (map fst (fr_callees fr')) <-> In d (map fst (fr_callees fr)) \/ In d l).
 Definition msound_repair (f : nat) : Prop :=
   forall inp X stk c n s ms s',
-    MInv p rk X inp s -> StkOk rk stk n -> (is_cq c = false -> stk = []) -> ~ sverified s n ->
+    MInv p rk sB X inp s -> StkOk rk stk n -> (is_cq c = false -> stk = []) -> ~ sverified s n ->
     (x_pedantic c = true \/ (X = [] /\ TfcOK s n)) ->
     mrepair f stk c n s = Ok (ms, s') ->
     XPost X inp c n s' /\ MKeeps s s' /\ ms = [].
 Definition msound_backward (f : nat) : Prop :=
   forall inp X Y n s s',
-    MInv p rk (X ++ Y) inp s -> sverified s n -> (forall y, In y Y -> In y (proj_callers s n)) ->
+    MInv p rk sB (X ++ Y) inp s -> sverified s n -> (forall y, In y Y -> In y (proj_callers s n)) ->
     mbackward f [] n s = Ok s' ->
-    MInv p rk X inp s' /\ sverified s' n /\ has_pending s' n = false.
+    MInv p rk sB X inp s' /\ sverified s' n /\ has_pending s' n = false.
 
 Lemma mono_q : forall f, mmono_query p f.
 Proof. intro f. apply (mmono_all p Hng f). Qed.
 
 (** * the TFC repair of a root *)
 Lemma msound_tfc : forall f inp, msound_query f ->
-  forall ts s s', MInv p rk [] inp s -> (forall t, In t ts -> nkind t <> KExternal) -> mtfc p f [] ts s = Ok s' ->
-    MInv p rk [] inp s' /\ forall t, In t ts -> sverified s' t.
+  forall ts s s', MInv p rk sB [] inp s -> (forall t, In t ts -> nkind t <> KExternal) -> mtfc p f [] ts s = Ok s' ->
+    MInv p rk sB [] inp s' /\ forall t, In t ts -> sverified s' t.
 Proof.
   intros f inp IHq. induction ts as [|t r IH]; intros s s' HI Hk H; cbn [mtfc] in H.
   - inversion H. subst. split; [exact HI|]. intros t [].
@@ -181,15 +182,15 @@ Qed.
 
 (** * the backward projections of a node *)
 Lemma msound_bp : forall f inp X, msound_query f ->
-  forall ps s s', MInv p rk X inp s -> (forall q, In q ps -> nkind q = KProjection) ->
+  forall ps s s', MInv p rk sB X inp s -> (forall q, In q ps -> nkind q = KProjection) ->
     mbp p f [] ps s = Ok s' ->
-    MInv p rk X inp s' /\ MonoR [] s s' /\ forall q, In q ps -> sverified s' q.
+    MInv p rk sB X inp s' /\ MonoR [] s s' /\ forall q, In q ps -> sverified s' q.
 Proof.
   intros f inp X IHq. induction ps as [|q r IH]; intros s s' HI Hk H; cbn [mbp] in H.
   - inversion H. subst. split; [exact HI|]. split; [apply MonoR_refl|]. intros t [].
   - destruct (mquery f [] CBPP None q s) as [[[[o fr'] m'] s1]| | |] eqn:Eq; try discriminate.
     pose proof (mono_q f _ _ _ _ _ _ _ _ _ Eq) as M1.
-    assert (HI0 : MInv p rk (X ++ []) inp s) by (rewrite app_nil_r; exact HI).
+    assert (HI0 : MInv p rk sB (X ++ []) inp s) by (rewrite app_nil_r; exact HI).
     assert (Hkq : nkind q <> KExternal) by (rewrite (Hk q (or_introl eq_refl)); discriminate).
     destruct (IHq inp X [] [] CBPP None q s o fr' m' s1 HI0 (StkOk_nil rk q) (fun _ => eq_refl) Hkq
                 (Hk q (or_introl eq_refl)) eq_refl I (or_introl eq_refl) Eq) as (HI1 & _ & _ & i & Hi & Hv & _).
@@ -216,7 +217,7 @@ Record MWalkInv (s : state) (i : info) (cs : list node) (rtfc : bool) (cleaned :
 }.
 
 Lemma MEdgeDone_mono : forall Ex X inp stk s s' i r x,
-  MInvE p rk Ex X inp s -> MonoR stk s s' -> MKeeps s s' -> MEdgeDone s i r x -> MEdgeDone s' i r x.
+  MInvE p rk sB Ex X inp s -> MonoR stk s s' -> MKeeps s s' -> MEdgeDone s i r x -> MEdgeDone s' i r x.
 Proof.
   intros Ex X inp stk s s' i r x HI HM HK ((j & v & t & A & B & C) & D & E & G).
   assert (Hx : exists j', get_info s' x = Some j' /\ i_value j' = i_value j /\
@@ -238,7 +239,7 @@ Lemma MEdgeDone_weaken : forall s i r x, MEdgeDone s i r x -> MEdgeDone s i true
 Proof. intros s i r x (A & B & C & _). split; [exact A|]. split; [exact B|]. split; [exact C|]. discriminate. Qed.
 
 Lemma MTStale_mono : forall Ex X inp stk s s' i,
-  MInvE p rk Ex X inp s -> MonoR stk s s' -> MKeeps s s' -> MTStale s i -> MTStale s' i.
+  MInvE p rk sB Ex X inp s -> MonoR stk s s' -> MKeeps s s' -> MTStale s i -> MTStale s' i.
 Proof.
   intros Ex X inp stk s s' i HI HM HK (cal & j & v & t & A & B & C & D & E & G).
   assert (Hc : exists j', get_info s' cal = Some j' /\ i_tfc j' = i_tfc j /\ (sverified s' cal \/ MSolid s' cal)).
@@ -254,7 +255,7 @@ Proof.
 Qed.
 
 Lemma MWalkInv_mono : forall Ex X inp stk s s' i cs r cl,
-  MInvE p rk Ex X inp s -> MonoR stk s s' -> MKeeps s s' -> MWalkInv s i cs r cl -> MWalkInv s' i cs r cl.
+  MInvE p rk sB Ex X inp s -> MonoR stk s s' -> MKeeps s s' -> MWalkInv s i cs r cl -> MWalkInv s' i cs r cl.
 Proof.
   intros Ex X inp stk s s' i cs r cl HI HM HK [A B C]. split.
   - intros x Hx. destruct (A x Hx) as [A1 [A2|A2]]; split; auto. right. eapply sverified_mono; eauto.
@@ -262,9 +263,9 @@ Proof.
   - intro Hr. eapply MTStale_mono; eauto.
 Qed.
 
-Lemma input_Solid : forall Ex X inp s d, MInvE p rk Ex X inp s -> nkind d = KInput -> MSolid s d.
+Lemma input_Solid : forall Ex X inp s d, MInvE p rk sB Ex X inp s -> nkind d = KInput -> MSolid s d.
 Proof.
-  intros Ex X inp s d HI K. pose proof (minput_no_fwd _ _ _ _ _ _ _ HI K) as E0. split.
+  intros Ex X inp s d HI K. pose proof (minput_no_fwd _ _ _ _ _ _ _ _ HI K) as E0. split.
   - intros x Hx y Hy. inversion Hx; subst; [rewrite E0 in Hy; destruct Hy|].
     match goal with H : In _ (old_fwd s d) |- _ => rewrite E0 in H; destruct H end.
   - intros F [x (P1 & P2 & _)]. inversion P1; subst; [rewrite E0 in P2; destruct P2|].
@@ -273,30 +274,30 @@ Qed.
 
 (** an edge that may be skipped: clean, outside a window, with the recorded firewalls verified *)
 Lemma mskip_done : forall inp s n i cal,
-  MInv p rk [] inp s -> get_info s n = Some i -> TfcOK s n ->
+  MInv p rk sB [] inp s -> get_info s n = Some i -> TfcOK s n ->
   In cal (all_callees (i_fwd i)) -> ~ sdirty s n cal -> MEdgeDone s i false cal.
 Proof.
   intros inp s n i cal HI Hi HT Hc Hcl.
   assert (Hcn : In cal (old_fwd s n)) by (unfold old_fwd; rewrite Hi; exact Hc).
-  destruct (mi_C _ _ _ _ _ _ HI n cal Hcn Hcl) as [(i0 & j & v & t & A & B & C & D & E) G].
+  destruct (mi_C _ _ _ _ _ _ _ HI n cal Hcn Hcl) as [(i0 & j & v & t & A & B & C & D & E) G].
   assert (i0 = i) by congruence. subst i0.
   split; [exists j, v, t; auto|]. split; [|split].
-  - intro K. apply (HT i Hi). apply (proj1 (mi_tfc _ _ _ _ _ _ HI n i cal v t Hi C)). exact K.
-  - intro K. destruct (thru_stored _ _ _ _ _ _ _ _ HI B K) as [Kc|Kc]; [eapply input_Solid; eauto|].
+  - intro K. apply (HT i Hi). apply (proj1 (mi_tfc _ _ _ _ _ _ _ HI n i cal v t Hi C)). exact K.
+  - intro K. destruct (thru_stored _ _ _ _ _ _ _ _ _ HI B K) as [Kc|Kc]; [eapply input_Solid; eauto|].
     pose proof (MGoodX_nil _ _ (G K)) as Gc. split; [exact Gc|]. intros F HF.
     assert (HFj : In F (i_tfc j)) by (eapply MGood_reach_tfc; eauto).
-    apply (HT i Hi). apply (proj2 (mi_tfc _ _ _ _ _ _ HI n i cal v t Hi C) Kc). apply (E K). exact HFj.
+    apply (HT i Hi). apply (proj2 (mi_tfc _ _ _ _ _ _ _ HI n i cal v t Hi C) Kc). apply (E K). exact HFj.
   - intros _ Kn. exists j, v, t. split; [exact B|]. split; [exact C|]. apply E. exact Kn.
 Qed.
 
 Lemma msound_walk : forall f inp X n stk pd i, msound_query f -> StkOk rk stk n ->
   forall cs rtfc cleaned fr ms s d fr' ms' s1,
-    MInv p rk X inp s -> get_info s n = Some i -> ~ sverified s n -> (pd = true \/ (X = [] /\ TfcOK s n)) ->
+    MInv p rk sB X inp s -> get_info s n = Some i -> ~ sverified s n -> (pd = true \/ (X = [] /\ TfcOK s n)) ->
     (forall x, In x cs -> In x (all_callees (i_fwd i))) ->
     ms = [] -> fr_scc fr = false -> fr_tfc fr = [] ->
     MWalkInv s i cs rtfc cleaned ->
     mwalk p f n stk pd i cs rtfc cleaned fr ms s = Ok (d, fr', ms', s1) ->
-    MInv p rk X inp s1 /\ MKeeps s s1 /\ ms' = [] /\ fr_scc fr' = false /\ fr_tfc fr' = [] /\
+    MInv p rk sB X inp s1 /\ MKeeps s s1 /\ ms' = [] /\ fr_scc fr' = false /\ fr_tfc fr' = [] /\
     match d with
     | DRecompute => MStaleV s1 n
     | DClean rtfc' cl' => MWalkInv s1 i [] rtfc' cl'
@@ -325,10 +326,10 @@ Proof.
       * apply W2; [exact Hx|]. intros [K|K]; [congruence|contradiction].
     + clear Eskip.
       destruct (alookup (i_obs i) cal) as [[ov otfc]|] eqn:Eo.
-      2:{ exfalso. destruct (mi_obs _ _ _ _ _ _ HI n i cal Hi Hcal) as [o Ho]. congruence. }
+      2:{ exfalso. destruct (mi_obs _ _ _ _ _ _ _ HI n i cal Hi Hcal) as [o Ho]. congruence. }
       (* the common continuation, once the callee has been brought up to date *)
       assert (Hstep : forall s0 fr0 ci,
-                MInv p rk X inp s0 -> MKeeps s s0 -> MonoR (n :: stk) s s0 ->
+                MInv p rk sB X inp s0 -> MKeeps s s0 -> MonoR (n :: stk) s s0 ->
                 get_info s0 cal = Some ci ->
                 (nkind cal = KFirewall -> sverified s0 cal) -> (thru cal -> MSolid s0 cal) ->
                 (nkind cal = KInput \/ sverified s0 cal) ->
@@ -337,7 +338,7 @@ Proof.
                  else mwalk p f n stk pd i r
                         (rtfc || (negb (kind_eqb (nkind cal) KFirewall) && negb (nset_eqb (i_tfc ci) otfc)))
                         (if dt then cleaned ++ [cal] else cleaned) fr0 ([] ++ []) s0) = Ok (d, fr', ms', s1) ->
-                MInv p rk X inp s1 /\ MKeeps s s1 /\ ms' = [] /\ fr_scc fr' = false /\ fr_tfc fr' = [] /\
+                MInv p rk sB X inp s1 /\ MKeeps s s1 /\ ms' = [] /\ fr_scc fr' = false /\ fr_tfc fr' = [] /\
                 match d with
                 | DRecompute => MStaleV s1 n
                 | DClean rtfc' cl' => MWalkInv s1 i [] rtfc' cl'
@@ -398,27 +399,27 @@ Proof.
           destruct (query_for p None f a b c d0 e) as [[[[o fr1] m1] s']| | |] eqn:Eq; try discriminate end.
         assert (HM : MonoR (n :: stk) s s') by (eapply mono_q; eauto).
         assert (Hcs : exists ci0, get_info s cal = Some ci0).
-        { destruct (get_info s cal) eqn:E0; [eauto|]. exfalso. eapply (mi_target _ _ _ _ _ _ HI); eauto. }
+        { destruct (get_info s cal) eqn:E0; [eauto|]. exfalso. eapply (mi_target _ _ _ _ _ _ _ HI); eauto. }
         destruct Hcs as [ci0 Hci0].
         assert (Kni : nkind cal <> KInput) by (intro K; rewrite K in Ek; discriminate).
         match type of Eq with query_for p None f _ (CQuery n false ?pc []) _ _ _ = _ => set (pcal := pc) in * end.
         assert (Hnpq : MNPq (CQuery n false pcal []) cal s).
         { cbn [MNPq]. destruct Hnp as [->|[_ HT]]; [left; reflexivity|].
-          destruct (mstored_kind _ _ _ _ _ _ _ _ HI Hci0) as [Kc|[Kc|Kc]]; [contradiction| |].
-          - right. left. apply (HT i Hi). apply (proj1 (mi_tfc _ _ _ _ _ _ HI n i cal ov otfc Hi Eo)). exact Kc.
+          destruct (mstored_kind _ _ _ _ _ _ _ _ _ HI Hci0) as [Kc|[Kc|Kc]]; [contradiction| |].
+          - right. left. apply (HT i Hi). apply (proj1 (mi_tfc _ _ _ _ _ _ _ HI n i cal ov otfc Hi Eo)). exact Kc.
           - assert (Ekf : kind_eqb (nkind cal) KFirewall = false).
             { destruct Kc as [Kc|Kc]; rewrite Kc; reflexivity. }
             unfold pcal. rewrite Hci0, Ekf. cbn [negb andb].
             destruct (nset_eqb (i_tfc ci0) otfc) eqn:Et; cbn [negb].
             + right. right. intros j Hj F HF. assert (j = ci0) by congruence. subst j.
-              apply (HT i Hi). apply (proj2 (mi_tfc _ _ _ _ _ _ HI n i cal ov otfc Hi Eo) Kc).
+              apply (HT i Hi). apply (proj2 (mi_tfc _ _ _ _ _ _ _ HI n i cal ov otfc Hi Eo) Kc).
               apply (proj1 (nset_eqb_In _ _) Et). exact HF.
             + left. apply orb_true_r. }
         assert (Hxm : XMode (CQuery n false pcal []) X).
         { cbn [XMode]. destruct Hnp as [->|[HX _]]; [left; reflexivity|right; exact HX]. }
-        assert (HIa : MInv p rk (X ++ []) inp s) by (rewrite app_nil_r; exact HI).
+        assert (HIa : MInv p rk sB (X ++ []) inp s) by (rewrite app_nil_r; exact HI).
         assert (Hkext : nkind cal <> KExternal).
-        { destruct (mstored_kind _ _ _ _ _ _ _ _ HI Hci0) as [Kc|[Kc|[Kc|Kc]]]; rewrite Kc; discriminate. }
+        { destruct (mstored_kind _ _ _ _ _ _ _ _ _ HI Hci0) as [Kc|[Kc|[Kc|Kc]]]; rewrite Kc; discriminate. }
         destruct (IHq inp X [] (n :: stk) (CQuery n false pcal []) (Some fr) cal s o fr1 m1 s' HIa
                     (StkOk_lower _ _ _ _ Hstk Hrkc) (fun K => ltac:(discriminate K)) Hkext Hnpq
                     (ex_intro _ fr (conj eq_refl (conj Hscc Htfc))) Hxm (or_introl eq_refl) Eq)
